@@ -93,6 +93,7 @@ class Contract:
         at=None,
         before_call=None,
         epilogue=(),
+        after=None,
     ):
         self.target = target  # "module:qualname" (code) or lemma name
         self.params = params  # ordered dict name -> type string
@@ -123,6 +124,7 @@ class Contract:
         # starred arguments are visible as star0, star1, ... and the callee's bound parameters as arg_<name>
         self.before_call = {k: [ast.parse(_dedent_src(x)).body for x in v] for k, v in (before_call or {}).items()}
         self.prologue = list(prologue)
+        self.after = {" ".join(k.split()): [ast.parse(_dedent_src(x)).body for x in v] for k, v in (after or {}).items()}  # ghost statements after matching statements
         self.epilogue = [ast.parse(_dedent_src(x)).body for x in epilogue]  # ghost statements (cuts) run at every exit before the postconditions  # ghost statements executed at function entry
         self.defaults = dict(defaults or {})
 
